@@ -47,10 +47,12 @@ extern int g_lib_rv, g_lib_called, g_cache_freed, g_basis_freed, g_basis_ok, g_c
 
 int contract_QSchange_coef(mpq_QSdata *p, int rowindex, int colindex, mpq_t coef)
 EDIT_FRAME EDIT_I1 EDIT_I2 EDIT_I3 EDIT_CALLS;
+/* a successful sense change may also rewrite row statuses of the stored basis (a row that is no longer ranged cannot stay 'at upper') */
+#define EDIT_RSTAT __CPROVER_assigns(p != 0 && p->basis != 0 && p->basis->rstat != 0: __CPROVER_object_whole(p->basis->rstat))
 int contract_QSchange_senses(mpq_QSdata *p, int num, int *rowlist, char *sense)
-EDIT_FRAME EDIT_I1 EDIT_I2 EDIT_I3 EDIT_CALLS;
+EDIT_FRAME EDIT_RSTAT EDIT_I1 EDIT_I2 EDIT_I3 EDIT_CALLS;
 int contract_QSchange_sense(mpq_QSdata *p, int rowindex, int sense)
-EDIT_FRAME EDIT_I1 EDIT_I2 EDIT_I3 EDIT_CALLS;
+EDIT_FRAME EDIT_RSTAT EDIT_I1 EDIT_I2 EDIT_I3 EDIT_CALLS;
 int contract_QSchange_range(mpq_QSdata *p, int rowindex, mpq_t range)
 EDIT_FRAME EDIT_I1 EDIT_I2 EDIT_I3 EDIT_CALLS;
 int contract_QSnew_row(mpq_QSdata *p, const mpq_t rhs, int sense, const char *name)
